@@ -153,7 +153,11 @@ func (c Cfg) BodyTableMap(t Table) []byte {
 		}
 	}
 	b = append(b, nb...)
-	b = append(b, t.Optional...)
+	if t.Optional != nil {
+		b = append(b, t.Optional...)
+	} else {
+		b = append(b, c.TableMapTrailer...)
+	}
 	return b
 }
 
